@@ -1879,6 +1879,8 @@ func getIndexMap2(n *node) {
 		nop(n)
 		return
 	}
+	// The zero value of the element type is assigned when the key is missing.
+	z := reflect.New(n.child[0].typ.frameType().Elem()).Elem()
 	if n.child[1].rval.IsValid() { // constant map index
 		mi := n.child[1].rval
 		switch {
@@ -1893,6 +1895,8 @@ func getIndexMap2(n *node) {
 				v := value0(f).MapIndex(mi)
 				if v.IsValid() {
 					dest(f).Set(v)
+				} else {
+					dest(f).Set(z)
 				}
 				if doStatus {
 					value2(f).SetBool(v.IsValid())
@@ -1914,6 +1918,8 @@ func getIndexMap2(n *node) {
 				v := value0(f).MapIndex(value1(f))
 				if v.IsValid() {
 					dest(f).Set(v)
+				} else {
+					dest(f).Set(z)
 				}
 				if doStatus {
 					value2(f).SetBool(v.IsValid())
